@@ -453,6 +453,7 @@ impl Component for SysComp {
             Probe(u64),
             Client(u64, Vec<u8>),
             Uplink(u64, u64, Vec<u8>),
+            Burst(u64, u64, usize, Vec<u8>),
             Flush(u64),
             Hk(u64),
             Cfg(ConfigSnapshot),
@@ -466,6 +467,10 @@ impl Component for SysComp {
             ["client", now, h] => now.parse().ok().zip(parse_hex(h)).map(|(a, b)| Op::Client(a, b)),
             ["uplink", now, cid, h] => match (now.parse(), cid.parse(), parse_hex(h)) {
                 (Ok(a), Ok(b), Some(c)) => Some(Op::Uplink(a, b, c)),
+                _ => None,
+            },
+            ["burst", now, cid, n, h] => match (now.parse(), cid.parse(), n.parse::<usize>(), parse_hex(h)) {
+                (Ok(a), Ok(b), Ok(c), Some(d)) if (1..=1000).contains(&c) => Some(Op::Burst(a, b, c, d)),
                 _ => None,
             },
             ["flush", now] => now.parse().ok().map(Op::Flush),
@@ -539,7 +544,7 @@ impl Component for SysComp {
 
         let now = match &parsed {
             Op::Probe(n) | Op::Flush(n) | Op::Hk(n) => *n,
-            Op::Client(n, _) | Op::Uplink(n, _, _) => *n,
+            Op::Client(n, _) | Op::Uplink(n, _, _) | Op::Burst(n, _, _, _) => *n,
             _ => 0,
         };
         // ---- pre-state for the monitors
@@ -601,6 +606,29 @@ impl Component for SysComp {
                         &w.trk,
                         &w.cfg,
                     ));
+                }
+                Op::Burst(_, cid, n, data) => {
+                    // a backlog of n datagrams in the uplink channel, drained the way the event loop
+                    // does after every arm: `drain_packet_queue` until the channel is empty
+                    let (tx, mut rx) = create_uplink_channel();
+                    for _ in 0..*n {
+                        let _ = tx.send(UplinkPacket { conn_id: *cid, bytes: SmallVec::from_slice_copy(data) });
+                    }
+                    let mut rounds = 0;
+                    while !rx.is_empty() && rounds < *n + 2 {
+                        rt.block_on(drain_packet_queue(
+                            &mut rx,
+                            &mut w.links,
+                            &w.io,
+                            &mut w.reg,
+                            &w.instant_tx,
+                            w.last_client,
+                            &w.listener,
+                            &w.trk,
+                            &w.cfg,
+                        ));
+                        rounds += 1;
+                    }
                 }
                 Op::Flush(_) => {
                     rt.block_on(flush_all_batches(&mut w.links, &w.io));
@@ -711,6 +739,31 @@ impl SysComp {
             "hk" => Kind::Hk,
             _ => Kind::Other,
         };
+        if toks[0] == "burst" && toks.len() == 5 {
+            // C09 over a backlog: every queued copy of a relayable datagram reaches the client
+            let w = self.w.as_ref().unwrap();
+            let data = parse_hex(toks[4]).unwrap_or_default();
+            let cnt: usize = toks[3].parse().unwrap_or(0);
+            let known_link = toks[2].parse::<u64>().ok().is_some_and(|cid| w.links.iter().any(|c| c.conn_id == cid));
+            if data.len() >= 2 && known_link {
+                let pt = get_packet_type(&data).unwrap();
+                let got = client.iter().filter(|d| **d == data).count();
+                if pre_client_known && !is_internal(pt) {
+                    mon.count("burst-relayed");
+                    if cnt > 64 {
+                        mon.count("burst-over-drain-budget");
+                    }
+                    if got < cnt {
+                        mon.fail("C09", "backlog-not-relayed", format!("{cnt} copies of a type {pt:#x} datagram were queued on the uplink channel, only {got} reached the client after draining"));
+                    }
+                    if client.iter().any(|d| *d != data) {
+                        mon.fail("C09", "relay-modified", "client received a datagram that differs from the queued one".into());
+                    }
+                } else if !client.is_empty() && (is_internal(pt) || !pre_client_known) {
+                    mon.fail("C09", "internal-delivered", format!("backlog of type {pt:#x} datagrams produced {} client datagrams", client.len()));
+                }
+            }
+        }
         let w = self.w.as_ref().unwrap();
         let g = &mut self.g;
         let n = w.links.len();
@@ -1359,6 +1412,21 @@ fn gen_case(rng: &mut Rng, idx: usize) -> Vec<String> {
             now += 15;
             ops.push(format!("flush {now}"));
             last_flush = now;
+        }
+        // return-path backlog: more datagrams queued on the uplink channel than one drain call takes
+        if rng.chance(1, 70) {
+            let j = rng.below(n as u64) as usize;
+            let cnt = *rng.pick(&[3u64, 63, 64, 65, 66, 90, 100]);
+            let mut b = match rng.below(3) {
+                0 => vec![0x80, 0x00],
+                1 => vec![0x80, 0x06],
+                _ => vec![0x12, 0x34],
+            };
+            let len = *rng.pick(&[16usize, 32, 64, 100, 200]);
+            while b.len() < len {
+                b.push(rng.below(256) as u8);
+            }
+            ops.push(format!("burst {now} {} {cnt} {}", j + 1, hexs(&b)));
         }
         let i = rng.below(n as u64) as usize;
         let pick = if in_bh && rng.chance(3, 4) { rng.below(18) } else { rng.below(40) };
